@@ -22,10 +22,12 @@ def method_name(call: ast.Call) -> str:
     return (dotted_name(call.func) or (call.func.attr if isinstance(call.func, ast.Attribute) else '')).split('.')[-1]
 
 
-def eval_int(e, env: Dict[str, int]) -> int:
+def eval_int(e, env) -> int:
     if isinstance(e, ast.Constant) and isinstance(e.value, int):
         return e.value
-    if isinstance(e, ast.Name) and e.id in env:
+    if isinstance(e, ast.UnaryOp) and isinstance(e.op, ast.USub):
+        return -eval_int(e.operand, env)
+    if isinstance(e, ast.Name) and isinstance(env.get(e.id), int):
         return env[e.id]
     if isinstance(e, ast.BinOp) and isinstance(e.op, (ast.Add, ast.Sub)):
         a, b = eval_int(e.left, env), eval_int(e.right, env)
@@ -33,55 +35,121 @@ def eval_int(e, env: Dict[str, int]) -> int:
     raise Unsupported(e, 'index expression not an integer in dim')
 
 
-def index_list(e, env) -> List[int]:
-    if isinstance(e, ast.Call) and isinstance(e.func, ast.Name) and e.func.id == 'range':
-        return list(range(*[eval_int(a, env) for a in e.args]))
-    return [eval_int(e, env)]
+def index_set(e, env, dim):
+    """('fancy', [i…]) for index vectors / ints, ('slice', [i…]) for slices"""
+    if isinstance(e, ast.Slice):
+        lo = eval_int(e.lower, env) if e.lower is not None else None
+        hi = eval_int(e.upper, env) if e.upper is not None else None
+        st = eval_int(e.step, env) if e.step is not None else None
+        return 'slice', list(range(dim))[slice(lo, hi, st)]
+    if isinstance(e, ast.Call) and ((isinstance(e.func, ast.Name) and e.func.id == 'range') or method_name(e) == 'arange'):
+        return 'fancy', list(range(*[eval_int(a, env) for a in e.args]))
+    if isinstance(e, ast.Name) and isinstance(env.get(e.id), list):
+        return 'fancy', list(env[e.id])
+    if isinstance(e, ast.BinOp) and isinstance(e.op, (ast.Add, ast.Sub)):
+        try:
+            k, base = index_set(e.left, env, dim)
+            off = eval_int(e.right, env)
+            if k == 'fancy':
+                return 'fancy', [i + off if isinstance(e.op, ast.Add) else i - off for i in base]
+        except Unsupported:
+            pass
+    i = eval_int(e, env)
+    return 'int', [i % dim if i < 0 else i]
 
 
 def fold_precision_matrix(fn: ast.FunctionDef, dim: int):
-    """execute the indexed stores of precision_matrix() for a concrete dim with symbolic precision"""
-    env = {}
+    """execute precision_matrix() for a concrete field length with a symbolic precision: zeros(), indexed / sliced / fancy stores, scaling by the precision"""
+    env: Dict[str, object] = {}
     tau = Rat.sym('tau')
-    M = [[Rat.const(0) for _ in range(dim)] for _ in range(dim)]
-    mat = None
+    mats: Dict[str, list] = {}
+
+    def atom(x):
+        if isinstance(x, ast.Name) and env.get(x.id) == 'tau':
+            return tau
+        if isinstance(x, ast.Attribute) and x.attr == 'tensor' and 'precision' in ast.unparse(x):
+            return tau
+        if isinstance(x, ast.Call) and isinstance(x.func, ast.Attribute) and x.func.attr in ('expand', 'squeeze', 'unsqueeze', 'view', 'reshape'):
+            return ToRat(atom)(x.func.value)
+        if isinstance(x, ast.Subscript) and not isinstance(x.value, ast.Name):
+            return None
+        if isinstance(x, ast.Subscript) and isinstance(x.value, ast.Name) and env.get(x.value.id) == 'tau':
+            return tau   # precision[..., None, None]
+        return None
+
+    def scalar(e):
+        return ToRat(atom)(e)
+
+    def matrix_value(e):
+        """a matrix-valued expression: name, scalar * matrix, .expand()/.clone() of a matrix"""
+        if isinstance(e, ast.Name) and e.id in mats:
+            return [row[:] for row in mats[e.id]]
+        if isinstance(e, ast.Call) and isinstance(e.func, ast.Attribute) and e.func.attr in ('expand', 'clone', 'contiguous', 'to', 'repeat'):
+            return matrix_value(e.func.value)
+        if isinstance(e, ast.BinOp) and isinstance(e.op, ast.Mult):
+            for a, b in ((e.left, e.right), (e.right, e.left)):
+                try:
+                    M = matrix_value(b)
+                except Unsupported:
+                    continue
+                k = scalar(a)
+                return [[k * v for v in row] for row in M]
+        if isinstance(e, ast.UnaryOp) and isinstance(e.op, ast.USub):
+            return [[Rat.const(0) - v for v in row] for row in matrix_value(e.operand)]
+        raise Unsupported(e, 'not a matrix expression')
+
     for st in fn.body:
-        if isinstance(st, ast.Assign) and isinstance(st.targets[0], ast.Name):
-            v = st.value
+        if isinstance(st, ast.Expr) and isinstance(st.value, ast.Constant):
+            continue
+        if isinstance(st, ast.Assign) and len(st.targets) == 1 and isinstance(st.targets[0], ast.Name):
+            name, v = st.targets[0].id, st.value
             if isinstance(v, ast.Subscript) and isinstance(v.value, ast.Attribute) and v.value.attr == 'shape':
-                env[st.targets[0].id] = dim
+                env[name] = dim
             elif isinstance(v, ast.Call) and method_name(v) == 'zeros':
-                mat = st.targets[0].id
-            elif isinstance(v, ast.Attribute) and v.attr == 'tensor':
-                env[st.targets[0].id] = 'tau'
+                mats[name] = [[Rat.const(0) for _ in range(dim)] for _ in range(dim)]
+            elif isinstance(v, ast.Call) and method_name(v) == 'arange':
+                env[name] = list(range(*[eval_int(a, env) for a in v.args]))
+            elif 'precision' in ast.unparse(v) and not any(isinstance(x, ast.Name) and x.id in mats for x in ast.walk(v)):
+                env[name] = 'tau'
+            else:
+                try:
+                    mats[name] = matrix_value(v)
+                except Unsupported:
+                    try:
+                        env[name] = eval_int(v, env)
+                    except Unsupported:
+                        raise Unsupported(st, f"assignment `{ast.unparse(st)[:60]}` not understood")
             continue
         if isinstance(st, ast.Assign) and all(isinstance(t, ast.Subscript) for t in st.targets):
-            def val(e):
-                def atom(x):
-                    if isinstance(x, ast.Name) and env.get(x.id) == 'tau':
-                        return tau
-                    if isinstance(x, ast.Call) and isinstance(x.func, ast.Attribute) and x.func.attr in ('expand', 'squeeze', 'unsqueeze'):
-                        return ToRat(atom)(x.func.value)
-                    return None
-                return ToRat(atom)(e)
-            value = val(st.value)
+            value = scalar(st.value)
             for t in st.targets:
-                if not (isinstance(t.value, ast.Name) and t.value.id == mat):
-                    raise Unsupported(t, 'store into something other than the precision matrix')
+                if not (isinstance(t.value, ast.Name) and t.value.id in mats):
+                    raise Unsupported(t, 'store into something other than a matrix')
+                M = mats[t.value.id]
                 elts = t.slice.elts if isinstance(t.slice, ast.Tuple) else [t.slice]
                 elts = [x for x in elts if not (isinstance(x, ast.Constant) and x.value is Ellipsis)]
                 if len(elts) != 2:
                     raise Unsupported(t, 'store must address [..., rows, cols]')
-                rows, cols = index_list(elts[0], {k: v for k, v in env.items() if isinstance(v, int)}), index_list(elts[1], {k: v for k, v in env.items() if isinstance(v, int)})
-                if len(rows) != len(cols):
-                    raise Unsupported(t, 'row and column index lists differ in length')
-                for i, j in zip(rows, cols):
+                (kr, rows), (kc, cols) = index_set(elts[0], env, dim), index_set(elts[1], env, dim)
+                if kr in ('fancy', 'int') and kc in ('fancy', 'int'):
+                    if len(rows) != len(cols):
+                        if len(rows) == 1:
+                            rows = rows * len(cols)
+                        elif len(cols) == 1:
+                            cols = cols * len(rows)
+                        else:
+                            raise Unsupported(t, 'row and column index lists differ in length')
+                    pairs = list(zip(rows, cols))
+                else:
+                    pairs = [(i, j) for i in rows for j in cols]   # a slice combines with anything as an outer product
+                for i, j in pairs:
+                    if not (-dim <= i < dim and -dim <= j < dim):
+                        raise Unsupported(t, 'index out of range')
                     M[i][j] = value
             continue
         if isinstance(st, ast.Return):
-            if not (isinstance(st.value, ast.Name) and st.value.id == mat):
-                raise Unsupported(st, 'precision_matrix does not return the matrix it filled')
-            return M
+            return matrix_value(st.value)
+        raise Unsupported(st, f"statement `{ast.unparse(st)[:60]}` not understood")
     raise Unsupported(fn, 'no return')
 
 
